@@ -30,6 +30,8 @@ def extra(report, env):
         return f
     p.set_function('ERR', lambda: error.REF)
     p.set_function('RAISE', raiser)
+    p.set_variable('arr', [1, 2, 3])
+    p.on('callRangeValue', lambda a, b, setter: setter([[1, 2], [3, 4]]))
     p.set_function('BOOMK', boom(KeyError('k')))
     p.set_function('BOOMA', boom(AttributeError('no such attribute')))
     p.set_function('BOOMI', boom(IndexError(3)))
@@ -57,6 +59,10 @@ def extra(report, env):
             chk('(%s)%s1' % (s, op), is_code, 'left error operand propagates through %s' % op)
             chk('1%s(%s)' % (op, s), is_code, 'right error operand propagates through %s' % op)
             chk('((%s)%s2)+3' % (s, op), is_code, 'propagates through nesting')
+            # an array or a range on the other side changes nothing: the operation evaluates to that error
+            chk('{1,2}%s(%s)' % (op, s), is_code, 'right error operand against an array literal through %s' % op)
+            chk('(%s)%sarr' % (s, op), is_code, 'left error operand against an array variable through %s' % op)
+            chk('A1:B2%s(%s)' % (op, s), is_code, 'right error operand against a range through %s' % op)
         if s not in literal:
             for s2 in ('1/0', 'NA()', 'ERR()', 'RAISE()'):     # (an error literal anywhere aborts the formula with its own code)
                 chk('(%s)+(%s)' % (s, s2), is_code, 'the left error wins')
@@ -73,7 +79,7 @@ def extra(report, env):
     chk('IFERROR(5,7)', lambda r: r['result'] == 5, 'IFERROR(x,y) = x when x is not an error')
     chk('IFNA(NA(),7)', lambda r: r['result'] == 7, 'IFNA')
     chk('IFNA(1/0,7)', lambda r: r['error'] == '#DIV/0!', 'IFNA passes other errors')
-    bounded(report, 'C08.error-trees', '20 error sources (literals, operators, functions returning / raising error values, calls failing with 6 other exception classes) x 11 operators x 3 positions, traps', cases, fails)
+    bounded(report, 'C08.error-trees', '20 error sources (literals, operators, functions returning / raising error values, calls failing with 6 other exception classes) x 11 operators x 6 positions (scalar, array literal, array variable and range on the other side), traps', cases, fails)
 
 
 def replay(rp):
@@ -85,6 +91,8 @@ def replay(rp):
         raise error.NUM
     p.set_function('ERR', lambda: error.REF)
     p.set_function('RAISE', raiser)
+    p.set_variable('arr', [1, 2, 3])
+    p.on('callRangeValue', lambda a, b, setter: setter([[1, 2], [3, 4]]))
 
     def boom(exc):
         def f(*a):
